@@ -244,6 +244,13 @@ var Shapes = []Shape{
 	{Name: "unknown-scheme", Lines: func(p ShapeParams) []string {
 		return []string{"Negotiate", `Digest realm="x", nonce="abc", qop="auth"`}
 	}},
+	// schemes that are neither Basic nor Bearer but begin like them
+	{Name: "near-bearer-scheme", Lines: func(p ShapeParams) []string {
+		return []string{"Bearer-PoP realm=" + quote(p.Realm) + ",service=" + quote(p.Service) + ",scope=" + quote(p.Scope)}
+	}},
+	{Name: "near-basic-scheme", Lines: func(p ShapeParams) []string {
+		return []string{`BasicHMAC realm="Registry Realm"`, "BASICS", `bearers realm="x"`}
+	}},
 	{Name: "unknown-then-bearer", Lines: func(p ShapeParams) []string {
 		return []string{`Digest realm="x", nonce="abc"`, plain(p)}
 	}, Bearer: fullBearer},
